@@ -1,6 +1,6 @@
 // @module crate=glaredb_core parent=src/optimizer/expr_rewrite/like.rs
 // @encodes can_str_compare, is_prefix_pattern, is_suffix_pattern, is_contains_pattern, has_escape, str::trim_matches('%') as applied by LikeRewrite::rewrite
-// @bounds pattern and subject are symbolic byte strings over the alphabet {a, b, %, _, \} (ASCII); quick: |p| <= 3, |s| <= 3; thorough: |p| <= 4, |s| <= 4; unwind 8
+// @bounds pattern and subject are symbolic byte strings over the alphabet {a, é (2 bytes), %, _, \}, valid UTF-8; quick: |p| <= 3, |s| <= 3; thorough: |p| <= 4, |s| <= 4; unwind 8
 //! C20 / C02: whenever the optimizer's LIKE classifiers accept a constant pattern, the
 //! predicate it is rewritten to (=, starts_with, ends_with, contains on the pattern with
 //! '%' trimmed) accepts exactly the strings the pattern denotes. The denotation is a
@@ -50,7 +50,22 @@ fn like_ref(s: &[u8], p: &[u8]) -> bool {
 }
 
 fn alpha(b: u8) -> bool {
-    b == b'a' || b == b'b' || b == b'%' || b == b'_' || b == b'\\'
+    b == b'a' || b == 0xC3 || b == 0xA9 || b == b'%' || b == b'_' || b == b'\\'
+}
+/// the only multi-byte character of the alphabet is 'é' = C3 A9: valid UTF-8 means the two
+/// bytes only occur together
+fn utf8_ok(bs: &[u8]) -> bool {
+    let mut i = 0;
+    while i < bs.len() {
+        if bs[i] == 0xC3 && !(i + 1 < bs.len() && bs[i + 1] == 0xA9) {
+            return false;
+        }
+        if bs[i] == 0xA9 && !(i > 0 && bs[i - 1] == 0xC3) {
+            return false;
+        }
+        i += 1;
+    }
+    true
 }
 fn starts_with(s: &[u8], x: &[u8]) -> bool {
     if x.len() > s.len() {
@@ -134,6 +149,7 @@ macro_rules! like_class {
                 kani::assume(alpha(pb[i]) && alpha(sb[i]));
                 i += 1;
             }
+            kani::assume(utf8_ok(&pb[..plen]) && utf8_ok(&sb[..slen]));
             let p = unsafe { core::str::from_utf8_unchecked(&pb[..plen]) };
             let s = &sb[..slen];
             kani::assume(classify(p) == $class);
